@@ -422,7 +422,7 @@ def decl_cases(tier):
     i = 0
     for kind in DECLS:
         for where in ("same", "earlier", "later"):
-            for route in ("param", "return", "field", "field_nested", "channel", "event_let", "event_helper", "return_err"):
+            for route in ("param", "return", "field", "field_nested", "channel", "event_let", "event_helper"):
                 combos = [(s, m) for s in SOURCES for m in MODES] if tier == "thorough" else [(SOURCES[i % 2], MODES[(i // 2) % 2])]
                 i += 1
                 for s, m in combos:
